@@ -28,3 +28,21 @@ package hashcash
 //@   ensures one-or-the-other: (err == nil) == (h != nil)
 //@   ensures fresh-object: h != nil ==> fresh(h)
 //@   ensures non-negative: h != nil ==> h.Difficulty >= 0
+
+// ---- C31 (solver side): what Solve searches over is what Verify recomputes. The fixed part of the stamp is taken
+// with an empty solution field (a stale solution is first verified and otherwise cleared), every candidate is hashed
+// as <fixed part>:<candidate>, which is exactly String() of the stamp carrying that candidate, and Solve returns nil
+// only for a candidate whose hash passed the same bit test Verify applies. Termination of the search is not decided.
+//@ func (h *Hashcash) Solve(maxDifficulty int) (err error)
+//@   safety off
+//@   opt frame=off
+//@   requires h != nil
+//@   requires env-the-global-cap-is-the-shipped-one-or-lower: MaxDifficulty <= 256
+//@   ghost prefixTaken int = 0
+//@   ghost passed bool = false
+//@   at call String#*: assert the-fixed-part-is-taken-from-a-stamp-without-solution: h.Solution == "" && prefixTaken == 0
+//@   at call String#*: ghost prefixTaken := prefixTaken + 1
+//@   at call Sum256#*: assert each-candidate-is-hashed-in-the-form-verify-recomputes: str(callarg0) == hashcash + Sep + h.Solution && prefixTaken == 1
+//@   at call verifyBits#*: assert the-same-bit-test-as-verify: callarg1 == h.Difficulty && callarg2 == n
+//@   at after call verifyBits#*: ghost passed := callresult
+//@   ensures local-a-found-solution-passed-the-bit-test-or-the-old-one-verified: err == nil ==> (passed || prefixTaken == 0)
